@@ -352,6 +352,21 @@ pub fn worker(ctx: &WorkerCtx, prop: &str) -> Report {
                     }
                 }
             }
+            // An external-input query captures its cell when it is first demanded. If an earlier,
+            // invisible occurrence of the finding (the stale value happened to equal the right
+            // one) made the engine skip that demand, the capture happens in a later epoch with
+            // another cell value: the first *visible* difference is then a value of an X node,
+            // and only a repair from the very beginning lines the capture times up again.
+            let first_is_external_capture = out.oracle.violations.iter().find(|v| v.0 == "C01").is_some_and(|v| {
+                let d = &v.2;
+                d.get("dep").and_then(Json::as_str).is_some_and(|x| x.starts_with('X')) || d.get("node").and_then(Json::as_str).is_some_and(|x| x.starts_with('X'))
+            });
+            if first_is_external_capture && !matches!(&cf, Ok(c) if !c.oracle.c01_violated) {
+                rep.count("counterfactual_from_the_first_step_for_external_input_capture_time", 1);
+                let (c, _) = run_spec(&spec, &case, &cfg, Some(Prerepair { from_step: 0, only: None }));
+                rep.count("counterfactual_runs", 1);
+                cf = c;
+            }
             match cf {
                 Ok(cf) if !cf.oracle.c01_violated => {
                     rep.count("cases_attributed_to_C01-F1", 1);
